@@ -53,6 +53,16 @@ pub fn check(tier: Tier) -> Check {
             tier.pick(15, 300),
         ));
     }
+    // delayed and abandoned operation futures in the history (deviations): e.g. the connection is lost
+    // after the PUBREC was processed but before the QoS 2 future got to queue its PUBREL
+    for (expiry, ago) in [(1000u64, 10u64), (u32::MAX as u64, 100_000), (0, 10)] {
+        parts.push(Part::new(
+            "C17/resume",
+            json!({"depth": tier.pick(4, 5), "expiry": expiry, "secs_ago": ago, "sched": true}),
+            tier.pick(1, 2),
+            tier.pick(15, 300),
+        ));
+    }
     // identifier flavour: the counters start next to a boundary of their encodings (DESIGN 4)
     for ids in [[65534u64, 1u64], [255, 127]] {
         parts.push(Part::new(
@@ -66,7 +76,7 @@ pub fn check(tier: Tier) -> Check {
         also_rel: false,
         property: "C17",
         level: "model_checking",
-        rule: "all histories of QoS 1/2 publishes, pings, subscribes, unsubscribes and their acknowledgements (success / failing) up to the stated depth; the connection is lost (EOF) after every prefix; the hook records the disconnection secs_ago seconds ago; set_up + connect (same options) + run on a fresh transport; the second wire must show CONNECT followed by exactly the unfinished PUBLISH (DUP=1, same id and content) / PUBREL packets in original order when the session has not expired, nothing when it has; then the acknowledgements arrive on the new connection and a fresh publish follows; session expiry in {0, 1000 s, never} x secs_ago in {10, 100000}, six (interval, elapsed) pairs of larger magnitude (a day, 120 days, just above 2^32 ms, 2^32 - 2 s; elapsed up to 5 * 10^9 s), and four combinations in which the CONNACK states a different Session Expiry Interval than the CONNECT (the broker's is the one in force); non-trivial = something had to be re-sent or an expired session had abandoned operations".into(),
+        rule: "all histories of QoS 1/2 publishes, pings, subscribes, unsubscribes and their acknowledgements (success / failing) up to the stated depth; the connection is lost (EOF) after every prefix; in three parts operation futures are additionally held back, polled spuriously or dropped (deviations), so that the loss also falls between the PUBREC and the moment the QoS 2 future queues its PUBREL; the hook records the disconnection secs_ago seconds ago; set_up + connect (same options) + run on a fresh transport; the second wire must show CONNECT followed by exactly the unfinished PUBLISH (DUP=1, same id and content) / PUBREL packets in original order when the session has not expired, nothing when it has; then the acknowledgements arrive on the new connection and a fresh publish follows; session expiry in {0, 1000 s, never} x secs_ago in {10, 100000}, six (interval, elapsed) pairs of larger magnitude (a day, 120 days, just above 2^32 ms, 2^32 - 2 s; elapsed up to 5 * 10^9 s), and four combinations in which the CONNACK states a different Session Expiry Interval than the CONNECT (the broker's is the one in force); non-trivial = something had to be re-sent or an expired session had abandoned operations".into(),
         assumptions: vec![
             "same ConnectOpts on both connections; secs_ago is >= 100 s away from the expiry boundary (the wall clock is not behind a seam)".into(),
             "the disconnection is recorded by the cfg(poster_verif) hook, production code never records it".into(),
@@ -123,6 +133,25 @@ pub fn scenario(name: &str, params: &Value) -> Scenario {
         for _ in 0..len {
             if sys.dead {
                 break;
+            }
+            if params["sched"].as_bool().unwrap_or(false) {
+                let mut ds = sched_deviations(&sys, false, false);
+                for i in 0..sys.m.ops.len() {
+                    let o = &sys.m.ops[i];
+                    // (a QoS 2 publish abandoned before its PUBREC is the recorded finding K-C15-1)
+                    let q2_early = matches!(&o.spec, OpSpec::Publish(p) if p.qos() == 2)
+                        && !matches!(o.st, St::AwaitComp);
+                    if o.alive && o.st != St::Done && !q2_early {
+                        ds.push(Ev::Cancel(i));
+                    }
+                }
+                let d = chz.deviate(1 + ds.len());
+                if d > 0 {
+                    sys.apply(ds[d - 1].clone());
+                    if sys.dead {
+                        break;
+                    }
+                }
             }
             let mut e = start_events(&sys, &specs, 4, 2);
             e.extend(broker_acks(&sys, true, false));
